@@ -276,6 +276,25 @@ func runC(c CCase) error {
 		if e := allRegistered(bound); e != nil {
 			return fmt.Errorf("after fault %q (%dms) the client did not heal within %v: %v; logins seen at %v", c.Fault, c.ForMs, bound, e, loginTimes(ss))
 		}
+		// every login after the first presents the run id the server assigned then: that is what lets the server
+		// replace the client's previous session instead of being blocked by it (also right after a refused attempt)
+		assigned := ""
+		for k, e := range ss.Events() {
+			if e.Kind != "Login" {
+				continue
+			}
+			rid, _ := e.Msg.(string)
+			if assigned == "" {
+				assigned = fmt.Sprintf("scripted%08d", e.Conn)
+				if rid != "" {
+					assigned = rid
+				}
+				continue
+			}
+			if rid != assigned {
+				return fmt.Errorf("after fault %q the client logged in with run id %q (event %d), the run id it was given is %q: the server cannot tell it is the same client", c.Fault, rid, k, assigned)
+			}
+		}
 		// not in a tight loop: attempt rate envelope
 		var logins []time.Duration
 		for _, e := range ss.Events() {
